@@ -224,6 +224,9 @@ static void prepare(Prepared &p, const JV &prog_json, const SeedMap *seeds = nul
     if (realtime && pj.has("end_in_us")) {
         const auto now = std::chrono::time_point_cast<std::chrono::microseconds>(engine_clock::now());
         p.eb->end_time(DateTime{now.time_since_epoch()} + TimeDelta{pj.at("end_in_us").as_int()});
+        // pin the start to the same instant: otherwise the window is measured from "whenever run() begins" and a stalled
+        // machine can let the whole window elapse before that (the engine then rightly refuses end <= start)
+        if (!pj.has("start") && !pj.has("start_in_us")) p.eb->start_time(DateTime{now.time_since_epoch()});
     }
     if (realtime && pj.has("start_in_us")) {
         const auto now = std::chrono::time_point_cast<std::chrono::microseconds>(engine_clock::now());
@@ -443,6 +446,8 @@ std::string handle_realtime(const JV &req) {
     std::string run_error;
     std::atomic<bool> run_done{false};
     std::atomic<std::int64_t> accepted{0};
+    struct SendRec { std::int64_t sb, sa, v; };
+    std::vector<SendRec> acc_recs;   // accepted sends (guarded by clog_mu)
     std::atomic<int> phase{0};
     bool watchdog_ok = true;
     std::string window_json = "null";
@@ -500,6 +505,7 @@ std::string handle_realtime(const JV &req) {
                         }
                         if (res) accepted.fetch_add(1);
                         const std::int64_t sa = ctx.seq.fetch_add(1) + 1, wa = wall_us();
+                        if (res) { std::lock_guard<std::mutex> l(clog_mu); acc_recs.push_back({sb, sa, v}); }
                         std::string pend = "null";
                         if (res && !run_done.load()) {
                             auto it = push_idx.find(src);
@@ -514,8 +520,21 @@ std::string handle_realtime(const JV &req) {
         }
         auto all_reached = [&](int ph) { for (auto &r : reached) if (r.load() < ph) return false; return true; };
         auto drain = [&](int ph) {
+            if (cfg.bool_or("value_drain", false)) {
+                // conflating source: the state that must eventually be delivered is the value of a MAXIMAL accepted send (no
+                // other accepted send started after it completed) - whichever of them entered the source last. All sends of
+                // the phases so far have returned, so the set is final; wait (no timing assumption) until the sink saw one.
+                std::vector<SendRec> recs;
+                { std::lock_guard<std::mutex> l(clog_mu); recs = acc_recs; }
+                std::vector<std::int64_t> maximal;
+                for (auto &a : recs) { bool later = false; for (auto &b : recs) if (b.sb > a.sa) { later = true; break; } if (!later) maximal.push_back(a.v); }
+                const bool ok = recs.empty() || wait_for([&] { const auto lv = ctx.last_value.load(); for (auto m : maximal) if (m == lv) return true; return run_done.load(); },
+                                                         cfg.int_or("drain_timeout_us", 20'000'000));
+                log("[\"drain\"," + std::to_string(ph) + "," + (ok ? "true" : "false") + "," + std::to_string(ctx.delivered.load()) + "," + std::to_string(accepted.load()) + "," + std::to_string(wall_us() - t_start) + "]");
+                return;
+            }
             if (!cfg.bool_or("count_drain", true)) { std::this_thread::sleep_for(std::chrono::milliseconds(20)); return; }
-            const bool ok = wait_for([&] { return ctx.delivered.load() >= accepted.load() || run_done.load(); }, cfg.int_or("drain_timeout_us", 5'000'000));
+            const bool ok = wait_for([&] { return ctx.delivered.load() >= accepted.load() || run_done.load(); }, cfg.int_or("drain_timeout_us", 20'000'000));
             log("[\"drain\"," + std::to_string(ph) + "," + (ok ? "true" : "false") + "," + std::to_string(ctx.delivered.load()) + "," + std::to_string(accepted.load()) + "," + std::to_string(wall_us() - t_start) + "]");
         };
         phase.store(1);
@@ -528,6 +547,7 @@ std::string handle_realtime(const JV &req) {
             if (s != nullptr) { try { res = s->send_blocking(Value{Int{l.at("v").as_int()}}); } catch (...) {} }
             if (res) accepted.fetch_add(1);
             const std::int64_t sa = ctx.seq.fetch_add(1) + 1;
+            if (res) { const std::int64_t lv = l.at("v").as_int(); std::lock_guard<std::mutex> lk(clog_mu); acc_recs.push_back({sb, sa, lv}); }
             const bool got = res && wait_for([&] { return ctx.latched.load() || run_done.load(); }, 10'000'000);
             log("[\"latch\"," + std::to_string(l.at("v").as_int()) + "," + std::to_string(sb) + "," + (res ? "true" : "false") + "," + std::to_string(sa) + "," + (got && ctx.latched.load() ? "true" : "false") + "," +
                 std::to_string(ctx.delivered.load()) + "," + std::to_string(accepted.load()) + "]");
